@@ -63,6 +63,8 @@ enum FeIn {
     JsonRaw(String),
     /// per <filter>: elements in document order; bool: pretty-printed with whitespace between elements
     Dlf(Vec<Vec<(String, String)>>, bool),
+    /// a DLF text written by hand (odd structure: empty elements, filters outside <dltfilter>, broken entities ...)
+    DlfText(String),
     Conv(Vec<u8>),
     Eac(String),
 }
@@ -243,6 +245,47 @@ fn render_dlf_text(fs: &[Vec<(String, String)>], pretty: bool) -> String {
     s.push_str("</dltfilter>");
     s.push_str(nl);
     s
+}
+
+/// the events quick-xml (configured as in filters_from_dlf) produces for a text, as far as the loader distinguishes them
+#[derive(Clone, Debug, PartialEq)]
+enum Xev {
+    Start(String),
+    End(String),
+    Text(Option<String>),
+    Eof,
+    Err,
+    Other,
+}
+fn xml_events(text: &str) -> Vec<Xev> {
+    let mut reader = quick_xml::Reader::from_reader(text.as_bytes());
+    reader.config_mut().trim_text(false);
+    let mut buf = Vec::new();
+    let mut out = vec![];
+    loop {
+        let ev = match reader.read_event_into(&mut buf) {
+            Ok(quick_xml::events::Event::Start(ref e)) => Xev::Start(String::from_utf8_lossy(e.local_name().as_ref()).into_owned()),
+            Ok(quick_xml::events::Event::End(ref e)) => Xev::End(String::from_utf8_lossy(e.local_name().as_ref()).into_owned()),
+            Ok(quick_xml::events::Event::Text(t)) => Xev::Text(t.unescape().ok().map(|c| c.to_string())),
+            Ok(quick_xml::events::Event::Eof) => Xev::Eof,
+            Err(_) => Xev::Err,
+            _ => Xev::Other,
+        };
+        let stop = matches!(ev, Xev::Eof | Xev::Err);
+        out.push(ev);
+        if stop || out.len() > 2000 {
+            break;
+        }
+        buf.clear();
+    }
+    out
+}
+fn dlf_text(fe: &FeIn) -> Option<String> {
+    match fe {
+        FeIn::Dlf(fs, pretty) => Some(render_dlf_text(fs, *pretty)),
+        FeIn::DlfText(t) => Some(t.clone()),
+        _ => None,
+    }
 }
 
 fn a_to_json(rng: &mut Rng, a: &AFilter) -> Vec<(String, Value)> {
@@ -486,9 +529,22 @@ fn coq_fe(fe: &FeIn) -> String {
     match fe {
         FeIn::Json(kv) => format!("InJson (Some {})", clist(&kv.iter().map(|(k, v)| format!("({}, {})", cstring(k), coq_jvalue(v))).collect::<Vec<_>>())),
         FeIn::JsonRaw(_) => "InJson None".into(),
-        FeIn::Dlf(fs, _) => format!(
+        FeIn::Dlf(..) | FeIn::DlfText(_) => format!(
             "InDlf {}",
-            clist(&fs.iter().map(|f| clist(&f.iter().map(|(k, v)| format!("({}, {})", cstring(k), cbytes(v.as_bytes()))).collect::<Vec<_>>())).collect::<Vec<_>>())
+            clist(
+                &xml_events(&dlf_text(fe).unwrap())
+                    .iter()
+                    .map(|e| match e {
+                        Xev::Start(n) => format!("XStart {}", cstring(n)),
+                        Xev::End(n) => format!("XEnd {}", cstring(n)),
+                        Xev::Text(Some(t)) => format!("XText (Some {})", cbytes(t.as_bytes())),
+                        Xev::Text(None) => "XText None".to_string(),
+                        Xev::Eof => "XEof".to_string(),
+                        Xev::Err => "XErr".to_string(),
+                        Xev::Other => "XOther".to_string(),
+                    })
+                    .collect::<Vec<_>>()
+            )
         ),
         FeIn::Conv(b) => format!("InConv {}", cbytes(b)),
         FeIn::Eac(s) => format!("InEac {}", cbytes(s.as_bytes())),
@@ -693,7 +749,7 @@ fn record_multi(sink: &mut Sink, ctx: &mut Ctx, fe: FeIn, a: Option<AFilter>, al
 
     let fe_name = match &fe {
         FeIn::Json(_) | FeIn::JsonRaw(_) => "json",
-        FeIn::Dlf(..) => "dlf",
+        FeIn::Dlf(..) | FeIn::DlfText(_) => "dlf",
         FeIn::Conv(_) => "conv",
         FeIn::Eac(_) => "eac",
     };
@@ -724,7 +780,7 @@ fn record_multi(sink: &mut Sink, ctx: &mut Ctx, fe: FeIn, a: Option<AFilter>, al
                 let fs: Option<Vec<Filter>> = match &fe2 {
                     FeIn::Json(kv) => Filter::from_json(&render_json_text(kv)).ok().map(|f| vec![f]),
                     FeIn::JsonRaw(t) => Filter::from_json(t).ok().map(|f| vec![f]),
-                    FeIn::Dlf(fs, pretty) => filters_from_dlf(render_dlf_text(fs, *pretty).as_bytes()).ok(),
+                    FeIn::Dlf(..) | FeIn::DlfText(_) => filters_from_dlf(dlf_text(&fe2).unwrap().as_bytes()).ok(),
                     FeIn::Conv(b) => filters_from_convert_format(&b[..]).ok(),
                     FeIn::Eac(_) => unreachable!(),
                 };
@@ -780,10 +836,10 @@ fn record_multi(sink: &mut Sink, ctx: &mut Ctx, fe: FeIn, a: Option<AFilter>, al
                 }
             }
         }
-        FeIn::Dlf(fs, _) => {
-            for f in fs {
-                for (_, v) in f {
-                    strings.insert(v.clone());
+        FeIn::Dlf(..) | FeIn::DlfText(_) => {
+            for e in xml_events(&dlf_text(&fe).unwrap()) {
+                if let Xev::Text(Some(t)) = e {
+                    strings.insert(t);
                 }
             }
         }
@@ -1341,6 +1397,44 @@ fn gen_raw_dlf(rng: &mut Rng) -> FeIn {
     }
     FeIn::Dlf(fs, rng.chance(1, 2))
 }
+/// DLF texts whose structure is not the plain one: the loops of filters_from_dlf / from_quick_xml_reader decide
+fn gen_odd_dlf(rng: &mut Rng) -> FeIn {
+    odd_dlf(rng.below(16))
+}
+fn odd_dlf(k: u64) -> FeIn {
+    let el = |k: &str, v: &str| format!("<{}>{}</{}>", k, xml_escape(v), k);
+    let f1 = format!("{}{}{}", el("enablefilter", "1"), el("enableapplicationid", "1"), el("applicationid", "APID"));
+    let f2 = format!("{}{}{}{}", el("enablefilter", "1"), el("enablecontextid", "1"), el("contextid", "CT"), el("enableregexp_Context", "0"));
+    let t = match k {
+        // an empty element produces no text event: the next text (here white space) is taken as its value
+        0 => format!("<dltfilter><filter>{}<enableecuid>1</enableecuid><ecuid></ecuid>\n  {}</filter></dltfilter>", f1, el("enablecontrolmsgs", "1")),
+        1 => format!("<dltfilter><filter>{}<enableecuid>1</enableecuid><ecuid></ecuid>{}</filter></dltfilter>", f1, el("enablecontrolmsgs", "1")),
+        // filters before / after / outside the dltfilter element are ignored
+        2 => format!("<filter>{}</filter><dltfilter><filter>{}</filter></dltfilter><filter>{}</filter>", f2, f1, f2),
+        3 => format!("<dltfilter></dltfilter><filter>{}</filter>", f1),
+        // a second dltfilter element
+        4 => format!("<dltfilter><filter>{}</filter></dltfilter><dltfilter><filter>{}</filter></dltfilter>", f1, f2),
+        5 => format!("<dltfilter><filter>{}</filter></dltfilter><dltfilter><filter>{}</filter>", f1, f2),
+        // a nested filter start is ignored, its end ends the outer one
+        6 => format!("<dltfilter><filter>{}<filter>{}</filter>{}</filter></dltfilter>", f1, f2, el("enablecontrolmsgs", "1")),
+        // missing end tags
+        7 => format!("<dltfilter><filter>{}", f1),
+        8 => format!("<dltfilter><filter>{}</filter>", f1),
+        // comments, empty-element tags, CDATA, processing instructions
+        9 => format!("<?xml version=\"1.0\"?><!-- c --><dltfilter><filter><!-- c -->{}<enablecontrolmsgs/><payloadtext><![CDATA[foo]]></payloadtext></filter></dltfilter>", f1),
+        // a broken entity in a text
+        10 => format!("<dltfilter><filter>{}<enablepayloadtext>1</enablepayloadtext><payloadtext>a &bogus; b</payloadtext></filter></dltfilter>", f1),
+        11 => format!("<dltfilter>&bogus;<filter>{}</filter></dltfilter>", f1),
+        // text before any element, mismatched end tag
+        12 => format!("<dltfilter><filter>stray{}</filter></dltfilter>", f1),
+        13 => format!("<dltfilter><filter>{}</wrong></filter></dltfilter>", f1),
+        // namespace prefix: local names count
+        14 => format!("<x:dltfilter xmlns:x=\"u\"><x:filter><x:enablefilter>1</x:enablefilter><x:enablecontrolmsgs>1</x:enablecontrolmsgs></x:filter></x:dltfilter>"),
+        // child elements inside an element
+        _ => format!("<dltfilter><filter>{}<enablepayloadtext>1</enablepayloadtext><payloadtext><b>fo</b>o</payloadtext></filter></dltfilter>", f1),
+    };
+    FeIn::DlfText(t)
+}
 fn gen_raw_conv(rng: &mut Rng) -> FeIn {
     let n = rng.size(45) as usize;
     let mut b = vec![];
@@ -1517,6 +1611,17 @@ fn corpus(sink: &mut Sink, ctx: &mut Ctx) {
         Some(1_000_010),
         &["corpus"],
     );
+    // DLF texts of unusual structure (the event loops of the loader)
+    for k in 0..16 {
+        let msgs = vec![
+            m(b"ECU1", Some((0x26, b"APID", b"CT\0\0")), "foo", 0),
+            m(b"ECU1", Some((0x41, b"APID", b"CTID")), "a foo b", 0),
+            m(b"\n  \0", Some((0x26, b"APID", b"CT\0\0")), "a  b", 0),
+            m(b"ECU1", Some((0x27, b"AP\0\0", b"CT\0\0")), "FOO", 0),
+            m(b"ECU1", None, "foo", 0),
+        ];
+        record(sink, ctx, odd_dlf(k), None, msgs, None, None, &["corpus", "odd_dlf"]);
+    }
 }
 
 fn main() {
@@ -1668,7 +1773,14 @@ fn main() {
     for i in 0..n_raw {
         let fe = match i % 8 {
             0..=3 => gen_raw_json(&mut rng),
-            4 | 5 => gen_raw_dlf(&mut rng),
+            4 => gen_raw_dlf(&mut rng),
+            5 => {
+                if i % 16 == 5 {
+                    gen_odd_dlf(&mut rng)
+                } else {
+                    gen_raw_dlf(&mut rng)
+                }
+            }
             6 => gen_raw_conv(&mut rng),
             _ => {
                 if have_cli && (i % 16 == 7 || !quick) {
